@@ -6,7 +6,7 @@ use crate::fsx::*;
 use log4rs::append::rolling_file::policy::compound::roll::{delete::DeleteRoller, fixed_window::FixedWindowRoller, Roll};
 use proptest::prelude::*;
 use serde::{Deserialize, Serialize};
-use std::path::Path;
+use std::path::{Path, PathBuf};
 
 pub const PATTERNS: [&str; 14] = [
     "$ENV{LV_BRACES}.{}.log",
@@ -53,6 +53,42 @@ pub struct Case {
     /// the rolled file lives on another filesystem than the archives (rename fails with EXDEV: copy fallback)
     #[serde(default)]
     pub cross_device: bool,
+    /// the first rolled file holds this many incompressible bytes (seed, length) instead of `rolls[0]`
+    #[serde(default)]
+    pub big: Option<(u64, u32)>,
+    /// (background rotation build) temp-file look-alikes `<stem>.<unix seconds>` of the coming seconds lie around
+    #[serde(default)]
+    pub leftovers: bool,
+}
+
+/// `\xHH` escapes in a generated name stand for raw bytes (file names that are not valid UTF-8)
+pub fn os_path(s: &str) -> PathBuf {
+    use std::os::unix::ffi::OsStringExt;
+    let b = s.as_bytes();
+    let mut out = vec![];
+    let mut i = 0;
+    while i < b.len() {
+        if b[i] == b'\\' && i + 3 < b.len() && b[i + 1] == b'x' {
+            out.push(u8::from_str_radix(&s[i + 2..i + 4], 16).unwrap());
+            i += 4;
+        } else {
+            out.push(b[i]);
+            i += 1;
+        }
+    }
+    PathBuf::from(std::ffi::OsString::from_vec(out))
+}
+
+pub fn incompressible(seed: u64, len: usize) -> Vec<u8> {
+    let mut x = seed | 1;
+    (0..len)
+        .map(|_| {
+            x ^= x << 13;
+            x ^= x >> 7;
+            x ^= x << 17;
+            (x >> 24) as u8
+        })
+        .collect()
 }
 
 fn content() -> impl Strategy<Value = Vec<u8>> {
@@ -74,9 +110,9 @@ pub fn strategy() -> impl Strategy<Value = Case> {
         prop::collection::vec((any::<u16>(), content()), 0..=3),
         prop::collection::vec(content(), 1..=10),
         any::<u16>(),
-        prop::bool::weighted(0.2),
+        (prop::bool::weighted(0.2), prop::option::weighted(0.08, (any::<u64>(), 70_000u32..400_000)), prop::bool::weighted(0.3)),
     )
-        .prop_map(|(delete_roller, count, base_kind, pat, init_kind, init, by, rolls, act, cross_device)| {
+        .prop_map(|(delete_roller, count, base_kind, pat, init_kind, init, by, rolls, act, (cross_device, big, leftovers))| {
             let base: u32 = match base_kind {
                 0 => 0,
                 1 => 1,
@@ -126,7 +162,7 @@ pub fn strategy() -> impl Strategy<Value = Case> {
             }
             let names = ["other.txt", "a.log.bak", "keep/inner.txt", "a.x.log", "arch/readme", "envdir/zz"];
             let bystanders = by.iter().map(|(i, b)| (pick(&names[..], *i).to_string(), b.clone())).collect();
-            let actives = ["active.log", "logs/cur.log", "a.log"];
+            let actives = ["active.log", "logs/cur.log", "a.log", "active.log", "caf\\xE9.log", "d\\xFFir/cur.log"];
             Case {
                 delete_roller,
                 base,
@@ -138,6 +174,8 @@ pub fn strategy() -> impl Strategy<Value = Case> {
                 active: pick(&actives[..], act).to_string(),
                 rolls,
                 cross_device,
+                big,
+                leftovers,
             }
         })
 }
@@ -177,9 +215,11 @@ fn check_in(dir: &Path, case: &Case, obs: &mut Obs) -> CaseResult {
         write_file(&dir.join(&n), b);
         initial.push((*off, b.clone()));
     }
+    // the key under which snapshots list the rolled file
+    let active_key = os_path(&case.active).to_string_lossy().to_string();
     let mut protected: Vec<String> = vec![];
     for (n, b) in &case.bystanders {
-        let clash = (-4..c + 8).any(|o| (case.base as i64 + o) >= 0 && name(o) == *n) || *n == case.active;
+        let clash = (-4..c + 8).any(|o| (case.base as i64 + o) >= 0 && name(o) == *n) || *n == active_key;
         if clash || dir.join(n).exists() {
             continue;
         }
@@ -201,8 +241,8 @@ fn check_in(dir: &Path, case: &Case, obs: &mut Obs) -> CaseResult {
     let fw_for_wait: Option<FixedWindowRoller> = if case.delete_roller { None } else { FixedWindowRoller::builder().base(case.base).build(&pattern_abs, case.count).ok() };
     let alt = if case.cross_device { other_fs_dir(dir) } else { None };
     let active = match &alt {
-        Some(a) => a.join(&case.active),
-        None => dir.join(&case.active),
+        Some(a) => a.join(os_path(&case.active)),
+        None => dir.join(os_path(&case.active)),
     };
     let gap_free_start = {
         let mut offs: Vec<i64> = initial.iter().map(|(o, _)| *o).filter(|o| *o >= 0 && *o < c).collect();
@@ -211,15 +251,33 @@ fn check_in(dir: &Path, case: &Case, obs: &mut Obs) -> CaseResult {
     };
     let mut exact = gap_free_start;
     let mut evicted = false;
+    let big_content = case.big.map(|(seed, len)| incompressible(seed, len as usize));
     for (ri, content) in case.rolls.iter().enumerate() {
+        let content = match (&big_content, ri) {
+            (Some(b), 0) => b,
+            _ => content,
+        };
         write_file(&active, content);
+        #[allow(unused_mut)]
+        let mut leftover_names: Vec<std::ffi::OsString> = vec![];
+        #[cfg(feature = "bg")]
+        if case.leftovers && alt.is_none() && !case.delete_roller {
+            // what an aborted background rotation leaves behind; none of these is the roller's to touch
+            let now = std::time::SystemTime::now().duration_since(std::time::UNIX_EPOCH).unwrap().as_secs();
+            for k in 0..4 {
+                let mut p = active.clone();
+                p.set_extension(format!("{}", now + k));
+                write_file(&p, format!("leftover {}", k).as_bytes());
+                leftover_names.push(p.file_name().unwrap().to_os_string());
+            }
+        }
         let before = snap(dir);
         let res = catch(|| roller.roll(&active));
         #[cfg(feature = "bg")]
         {
             // the roller handed to the appender and this clone do not share state; wait by observing the temp file
             let _ = &fw_for_wait;
-            wait_bg_idle(&active);
+            wait_bg_idle_except(&active, &leftover_names);
         }
         match res {
             Err(p) => {
@@ -238,8 +296,11 @@ fn check_in(dir: &Path, case: &Case, obs: &mut Obs) -> CaseResult {
         let wa = window(&after);
         if case.delete_roller || c == 0 {
             let mut expect = before.files.clone();
-            expect.remove(&case.active);
+            expect.remove(&active_key);
             ensure!(after.files == expect, "C07:delete-side-effects", "roll #{} with {}: files other than the rolled one changed: before {:?} after {:?}", ri, if case.delete_roller { "the delete roller" } else { "count 0" }, before.files.keys().collect::<Vec<_>>(), after.files.keys().collect::<Vec<_>>());
+            for n in &leftover_names {
+                let _ = std::fs::remove_file(active.parent().unwrap().join(n));
+            }
             continue;
         }
         ensure!(wa.len() as i64 <= c, "C07:too-many-archives", "roll #{}: {} archives inside a window of {}", ri, wa.len(), c);
@@ -282,13 +343,16 @@ fn check_in(dir: &Path, case: &Case, obs: &mut Obs) -> CaseResult {
         // nothing outside the managed names is created, modified or removed
         let managed: Vec<String> = (0..c).map(name).collect();
         for (f, b) in &before.files {
-            if managed.contains(f) || *f == case.active {
+            if managed.contains(f) || *f == active_key {
                 continue;
             }
             ensure!(after.files.get(f) == Some(b), "C07:bystander-touched", "roll #{}: file {:?} outside the window was {}", ri, f, if after.files.contains_key(f) { "modified" } else { "removed" });
         }
         for f in after.files.keys() {
             ensure!(managed.contains(f) || before.files.contains_key(f), "C07:stray-file", "roll #{}: new file {:?} outside the managed names", ri, f);
+        }
+        for n in &leftover_names {
+            let _ = std::fs::remove_file(active.parent().unwrap().join(n));
         }
     }
     let _ = protected;
@@ -303,6 +367,10 @@ fn check_in(dir: &Path, case: &Case, obs: &mut Obs) -> CaseResult {
     obs.class_if(case.pattern.contains("$ENV"), "env-reference");
     obs.class_if(case.base as u64 + case.count as u64 > u32::MAX as u64, "base+count-overflows-u32");
     obs.class_if(case.delete_roller, "delete-roller");
+    obs.class_if(case.big.is_some(), "rolled-file>=70kB-incompressible");
+    obs.class_if(case.active.contains("\\x"), "rolled-file-name-not-utf8");
+    #[cfg(feature = "bg")]
+    obs.class_if(case.leftovers && alt.is_none() && !case.delete_roller, "temp-file-look-alikes-present");
     obs.class_if(alt.is_some(), "rolled-file-on-another-filesystem");
     obs.class_if(case.initial.iter().any(|(o, _)| *o < 0 || *o >= c), "archives-outside-window");
     Ok(())
@@ -311,6 +379,11 @@ fn check_in(dir: &Path, case: &Case, obs: &mut Obs) -> CaseResult {
 /// background rotation renames the rolled file to `<stem>.<unix seconds>` first: wait until it is gone
 #[cfg(feature = "bg")]
 pub fn wait_bg_idle(active: &Path) {
+    wait_bg_idle_except(active, &[])
+}
+
+#[cfg(feature = "bg")]
+pub fn wait_bg_idle_except(active: &Path, except: &[std::ffi::OsString]) {
     let p = active.to_path_buf();
     let parent = p.parent().unwrap().to_path_buf();
     let stem = p.file_stem().unwrap().to_string_lossy().to_string();
@@ -318,7 +391,7 @@ pub fn wait_bg_idle(active: &Path) {
     loop {
         let busy = std::fs::read_dir(&parent)
             .map(|rd| {
-                rd.flatten().any(|e| {
+                rd.flatten().filter(|e| !except.contains(&e.file_name())).any(|e| {
                     let n = e.file_name().to_string_lossy().to_string();
                     n.strip_prefix(&format!("{}.", stem)).map_or(false, |rest| rest.len() >= 9 && rest.chars().all(|c| c.is_ascii_digit()))
                 })
@@ -361,7 +434,7 @@ pub fn replay(part: &str, case: serde_json::Value) -> Option<CaseResult> {
 pub fn meta() -> EvidenceMeta {
     EvidenceMeta {
         level: "exploration",
-        rule: "cases = roller configuration (base in {0,1,3,9,99,u32::MAX-count,u32::MAX-count+1}, count 0-6, 12 patterns: index in file name / directory component / twice, non-ASCII, spaces, $ENV{set}/$ENV{unset} references, .gz/.zst) x initial directory (empty, contiguous prefix, gaps, archives outside the window, bystander files/dirs) x 1-10 successive Roll::roll calls on freshly written files (empty, small, ~10 kB); oracle over full recursive snapshots before/after each roll: rolled path gone, index base holds the rolled bytes (decompressed with flate2/zstd when requested), exact shift base+j <- base+j-1 for gap-free windows, oldest evicted only when the window was full, with gaps the charitable ordered-list relation, every file outside the managed names byte-identical and no new file elsewhere; count 0 / delete roller: only the rolled file disappears. non-trivial = eviction reached with count >= 3, or initial gaps, or index in a directory component, or compression".into(),
+        rule: "cases = roller configuration (base in {0,1,3,9,99,u32::MAX-count,u32::MAX-count+1}, count 0-6, 12 patterns: index in file name / directory component / twice, non-ASCII, spaces, $ENV{set}/$ENV{unset} references, .gz/.zst) x initial directory (empty, contiguous prefix, gaps, archives outside the window, bystander files/dirs) x 1-10 successive Roll::roll calls on freshly written files (empty, small, ~10 kB, 70-400 kB incompressible; file and directory names that are not valid UTF-8; in the background-rotation build temp-file look-alikes <stem>.<unix second> for the coming seconds lie in the directory); oracle over full recursive snapshots before/after each roll: rolled path gone, index base holds the rolled bytes (decompressed with flate2/zstd when requested), exact shift base+j <- base+j-1 for gap-free windows, oldest evicted only when the window was full, with gaps the charitable ordered-list relation, every file outside the managed names byte-identical and no new file elsewhere; count 0 / delete roller: only the rolled file disappears. non-trivial = eviction reached with count >= 3, or initial gaps, or index in a directory component, or compression".into(),
         assumptions: vec!["archive names computed with the harness's own single-pass $ENV expander".into()],
         mutants_caught: vec![],
     }
